@@ -40,7 +40,15 @@ VOCAB = [
     # qualified names (followed from the module by attribute access): the callee is computed
     ("glob", "os.system", "benign_std"), ("shlex", "os.getpid", "benign_std"), ("collections", "OrderedDict.fromkeys", "benign_std"),
     ("datetime", "date.today", "benign_std"),
+    ("builtins", "frozenset", "builtins"), ("builtins", "bytearray", "builtins"), ("builtins", "list", "builtins"),
+    ("builtins", "dict", "builtins"), ("builtins", "tuple", "builtins"), ("builtins", "object", "builtins"),
+    ("verif_sink", "frozenset", "nonstd"), ("collections", "set", "benign_std"),
 ]
+# names that the decompiler or some rule could special-case (builtin constructors, the evalish four, attribute helpers):
+# every SHORT shape that makes a call is instantiated with each of them, not only with the rotating vocabulary entry
+SPECIAL = [("builtins", "set"), ("builtins", "frozenset"), ("builtins", "bytearray"), ("builtins", "list"), ("builtins", "dict"),
+           ("builtins", "tuple"), ("builtins", "object"), ("builtins", "eval"), ("builtins", "getattr"), ("builtins", "__import__"),
+           ("verif_sink", "frozenset"), ("collections", "set")]
 SECOND = [("collections", "OrderedDict"), ("verif_sink", "other"), ("builtins", "getattr"), ("os", "getpid"),
           ("collections", "deque"), ("datetime", "date")]
 
@@ -114,6 +122,9 @@ def instantiate(prog, v1, v2, rng, variants=True):
     return out, var
 
 
+CALLERS = {"REDUCE", "OBJ", "INST", "NEWOBJ", "NEWOBJ_EX"}
+
+
 def uses_symbols(prog):
     return any((op["o"] in ("GLOBAL", "INST") and op["m"] in ("M1", "M2")) or
                (op["o"] == "CONST" and op.get("s") in ("M1", "N1", "M2")) for op in prog)
@@ -151,6 +162,10 @@ def build_items(ctx, plan, per_shape=1, natural=0):
                 vi += 1
                 ops, var = instantiate(prog, v1, v2, ctx.rng)
                 items.append({"id": len(items), "prog": ops, "variants": var, "tag": tag})
+            if tag == "calls" and len(prog) <= 5 and uses_symbols(prog) and CALLERS & {o["o"] for o in prog}:
+                for sp in SPECIAL:
+                    ops, var = instantiate(prog, sp, SECOND[0], ctx.rng)
+                    items.append({"id": len(items), "prog": ops, "variants": var, "tag": tag})
     extra = []
     if natural:      # real model pickles (BINPERSID storages, torch._utils rebuild calls, OrderedDict + SETITEMS) and the
         import subprocess           # repository's own regression inputs
